@@ -66,7 +66,7 @@ CHECKS.update({
         "technique": "Kani/CBMC bounded model checking with fully symbolic input bytes (parser) and symbolic digit position (printer)",
     },
     "C10": {
-        "text": "Differential bounded model checking per exported alias LutN: Lut::from / try_from round trips and rejection of every other size 0..13; for symbolic functions and arguments the same operation on LutN and on Lut gives corresponding results (operators, value, cmp, set_value, flip, swap, swap_adjacent, cofactors, from_cofactors, top_decomposition, unateness, all named constructors with parameters over all usize, first iterator items, from_hex_string on symbolic strings for N<=5); u8/u16/u32/u64 conversions of Lut3..Lut6 bit-exact for all integers. quick N=0..8, thorough all 13 aliases. bdd_complexity pairs are outside (C07); canonization triples are compared at the sizes of C04/C05.",
+        "text": "Differential bounded model checking per exported alias LutN: Lut::from / try_from round trips and rejection of every other size 0..13; for symbolic functions and arguments the same operation on LutN and on Lut gives corresponding results (operators, value, cmp, set_value, flip, swap, swap_adjacent, cofactors, from_cofactors, top_decomposition, unateness, all named constructors with parameters over all usize, first iterator items, from_hex_string on symbolic strings for N<=5); u8/u16/u32/u64 conversions of Lut3..Lut6 bit-exact for all integers. quick N=0..8; thorough: conversions and constructors for all 13 aliases, differential operator/transform harnesses up to N=9 (out of memory beyond; the shared kernels are decided up to n=12 by C01/C03/C06). bdd_complexity pairs are outside (C07); canonization triples are compared at the sizes of C04/C05.",
         "design_ref": "DESIGN.md section 5 / C10",
         "technique": "Kani/CBMC differential bounded model checking (LutN vs Lut on the same symbolic function)",
     },
